@@ -22,6 +22,11 @@ pub struct TabRace {
     seed: u64,
     schedules: u32,
     pct_depth: Option<u8>,
+    /// the template carries a literal TAB and a further thread installs a fresh style (same template, created
+    /// at the default width) while the others run: every frame is one snapshot - literal, prefix and message
+    /// expanded at one and the same width
+    #[serde(default)]
+    restyle: bool,
 }
 
 fn expand(s: &str, w: usize) -> String {
@@ -29,10 +34,19 @@ fn expand(s: &str, w: usize) -> String {
 }
 
 fn body(c: &TabRace) {
-    let vt = VTerm::raw(50, 400);
+    let vt = if c.restyle { VTerm::new(4, 1000).with_snapshots() } else { VTerm::raw(50, 400) };
     let pb = ProgressBar::with_draw_target(Some(10), ProgressDrawTarget::term_like_with_hz(vt.boxed(), 255));
-    pb.set_style(ProgressStyle::with_template("[{prefix}|{msg}]").unwrap());
+    let template = if c.restyle { "L\tR[{prefix}|{msg}]" } else { "[{prefix}|{msg}]" };
+    pb.set_style(ProgressStyle::with_template(template).unwrap());
     let mut hs = vec![];
+    if c.restyle {
+        let pb = pb.clone();
+        hs.push(shuttle::thread::spawn(move || {
+            pb.set_style(ProgressStyle::with_template(template).unwrap());
+            pb.tick();
+            pb.set_style(ProgressStyle::with_template(template).unwrap());
+        }));
+    }
     {
         let (pb, texts) = (pb.clone(), c.texts.clone());
         hs.push(shuttle::thread::spawn(move || {
@@ -53,11 +67,12 @@ fn body(c: &TabRace) {
             }
         }));
     }
-    if c.ticker {
+    if c.ticker || c.restyle {
         let pb = pb.clone();
         hs.push(shuttle::thread::spawn(move || {
             pb.tick();
             pb.inc(1);
+            pb.tick();
         }));
     }
     for h in hs {
@@ -70,6 +85,19 @@ fn body(c: &TabRace) {
     assert_eq!(pb.prefix(), expand(&prefix, w), "TABS: prefix() after both threads finished (last width {w})");
     pb.force_draw();
     assert!(!vt.lock().tab_seen, "TABS: a TAB character reached the terminal");
+    if c.restyle {
+        let frames = vt.take_frames();
+        let texts_of = |rem: usize| -> Vec<String> { std::iter::once(String::new()).chain(c.texts.iter().enumerate().filter(|(i, _)| i % 2 == rem).map(|(_, t)| t.clone())).collect() };
+        let (msgs, prefixes) = (texts_of(0), texts_of(1));
+        for (k, fr) in frames.iter().enumerate() {
+            let Some(line) = fr.rows.first() else { continue };
+            let consistent = (0..17usize).any(|tw| msgs.iter().any(|m| prefixes.iter().any(|p| format!("L{}R[{}|{}]", " ".repeat(tw), expand(p, tw), expand(m, tw)).trim_end() == line.trim_end())));
+            assert!(consistent, "TABS: frame {k} {line:?} is not the template, a prefix and a message of this program expanded at one tab width (texts {:?})", c.texts);
+        }
+        let last = frames.last().and_then(|f| f.rows.first().cloned()).unwrap_or_default();
+        assert_eq!(last.trim_end(), format!("L{}R[{}|{}]", " ".repeat(w), expand(&prefix, w), expand(&msg, w)).trim_end(), "TABS: frame drawn after all threads finished (last width {w})");
+        return;
+    }
     let lines = vt.last_frame_lines().expect("frame");
     assert_eq!(lines, vec![format!("[{}|{}]", expand(&prefix, w), expand(&msg, w))], "TABS: frame drawn after both threads finished (last width {w})");
 }
@@ -98,6 +126,7 @@ fn run_race(c: &TabRace) -> CaseResult {
             v.label("schedules_explored");
             v.label_if(v.nontrivial, "tab_text_and_width_change_race");
             v.label_if(c.pct_depth.is_some(), "pct_scheduler");
+            v.label_if(c.restyle, "style_replaced_while_frames_are_drawn");
             Ok(v)
         }
         Err(msg) => {
@@ -120,18 +149,18 @@ pub fn property() -> Property {
         assumptions: &["hooks on: every lock operation is a scheduling point of shuttle; concurrent calls are read as taking effect in some order ('in any order')"],
         parts: vec![Box::new(Gen::<TabRace> {
             name: "sched_tabs",
-            rule: "one thread sets 1-4 texts with 0-3 tabs alternately as message and prefix, another sets 1-3 tab widths (0..=16), optionally a third ticks, under 150 (thorough 2000) random or PCT schedules per program; after the join message()/prefix() must be the last texts expanded at the last width, the frame drawn then must show the same and no TAB may have reached the terminal; non-trivial = a text with a tab and a width change",
+            rule: "one thread sets 1-4 texts with 0-3 tabs alternately as message and prefix, another sets 1-3 tab widths (0..=16), optionally a third ticks, in 40% of the programs the template carries a literal TAB and a further thread installs fresh styles while frames are drawn (every painted frame must then be template, a prefix and a message expanded at one single width), under 150 (thorough 2000) random or PCT schedules per program; after the join message()/prefix() must be the last texts expanded at the last width, the frame drawn then must show the same and no TAB may have reached the terminal; non-trivial = a text with a tab and a width change",
             strategy: |t| {
                 let schedules = t.pick(150u32, 2000);
                 let text = proptest::collection::vec(prop_oneof![2 => "[a-z]{0,3}", 2 => Just("\t".to_string())], 0..5).prop_map(|v| v.concat());
-                (proptest::collection::vec(text, 1..5), proptest::collection::vec(0u8..17, 1..4), any::<bool>(), any::<u64>(), proptest::option::weighted(0.3, 1u8..4))
-                    .prop_map(move |(texts, widths, ticker, seed, pct_depth)| TabRace { texts, widths, ticker, seed, schedules, pct_depth })
+                (proptest::collection::vec(text, 1..5), proptest::collection::vec(0u8..17, 1..4), any::<bool>(), any::<u64>(), proptest::option::weighted(0.3, 1u8..4), proptest::bool::weighted(0.4))
+                    .prop_map(move |(texts, widths, ticker, seed, pct_depth, restyle)| TabRace { texts, widths, ticker, seed, schedules, pct_depth, restyle })
                     .boxed()
             },
             cases: |t| t.pick(40, 600),
             run: run_race,
             signature: no_signature,
-            essential: &["schedules_explored", "tab_text_and_width_change_race", "pct_scheduler"],
+            essential: &["schedules_explored", "tab_text_and_width_change_race", "pct_scheduler", "style_replaced_while_frames_are_drawn"],
             workers: default_workers(),
             decode: None,
         })],
